@@ -290,6 +290,7 @@ macro_rules! pairs {
     };
 }
 
+#[cfg(not(fuzzing))]
 pub fn jobs(_env: &Env) -> Vec<Box<dyn Job>> {
     let mut out: Vec<Box<dyn Job>> = Vec::new();
     pairs!(out;
